@@ -174,3 +174,57 @@ register(Contract(
         "else forall(lambda k: char_at(source_string, k) != 10, end_index + col_adjust + 1, len(source_string))))",
     ])},
 ))
+
+# ------------------------------------------------------------------------------------------------ C05: column after a multi-line label
+# After a full reference link/image `[text][label]` whose label spans lines, what follows starts on the line of the label's last
+# line, right behind `<last line of the label>]`: column = len(last line) + 1 (the bracket) + 1 (columns are 1-based).  The helper
+# returns that column negated ("absolute column") and moves the line by the number of newlines in the label; a label without a
+# newline changes nothing.  Characters of the last line are counted as they are in the source (nothing is stripped).
+import z3 as _z3
+from pyvc.sym import vint as _vint
+IHH = "pymarkdown/inline/inline_handler_helper.py::InlineHandlerHelper."
+_nl_count = _z3.Function("spec_newline_count", _z3.IntSort(), _z3.IntSort())
+_last_len = _z3.Function("spec_last_line_length", _z3.IntSort(), _z3.IntSort())
+
+
+@spec_fn("newline_count")
+def _newline_count(ex, st, args):
+    """number of newline characters in a string (uninterpreted, >= 0)"""
+    v = _nl_count(V.s(args[0].z))
+    st.assume(v >= 0)
+    return _vint(v)
+
+
+@spec_fn("last_line_length")
+def _last_line_length(ex, st, args):
+    """number of characters after the last newline of a string (uninterpreted, 0 <= . <= len)"""
+    sid = V.s(args[0].z)
+    v = _last_len(sid)
+    st.assume(_z3.And(v >= 0, v <= slen(sid)))
+    return _vint(v)
+
+
+COUNT_NL = Assumed(PH + "count_newlines_in_text", params=["text_to_examine"], returns="int", pure=True,
+                   ensures=["result == newline_count(text_to_examine)", "result >= 0"],
+                   why="len(s) - len(s.replace('\\n', '')): the number of newlines (str.replace is outside the subset)")
+LAST_LINE = Assumed(PH + "calculate_last_line", params=["text_string"], returns="str", pure=True,
+                    ensures=["len(result) == last_line_length(text_string)"],
+                    why="s.split('\\n')[-1]: the text after the last newline, unchanged (str.split is outside the subset)")
+_R["$fields"].types.update({"ParagraphMarkdownToken.rehydrate_index": "int", "ReferenceMarkdownToken._ReferenceMarkdownToken__ex_label": "Optional[str]"})
+LBL = "current_token.ex_label"
+# inside a paragraph the leading whitespace of every line is kept by the paragraph token (split_paragraph_lines), not by the label
+INDENT = "(len(split_paragraph_lines[para_owner.rehydrate_index]) if (split_paragraph_lines is not None and len(split_paragraph_lines) > 0) else 0)"
+register(Contract(
+    key=IHH + "__calculate_full_deltas", properties=["C05"],
+    calls={"ParserHelper.count_newlines_in_text": COUNT_NL, "ParserHelper.calculate_last_line": LAST_LINE},
+    requires=[f"{LBL} is not None",
+              "implies(split_paragraph_lines is not None and len(split_paragraph_lines) > 0, para_owner is not None and "
+              f"0 <= para_owner.rehydrate_index + newline_count({LBL}) < len(split_paragraph_lines))"],
+    ensures=[
+        f"implies(newline_count({LBL}) == 0, result[0] == delta_line and result[1] == repeat_count)",
+        f"implies(newline_count({LBL}) > 0, result[0] == delta_line + newline_count({LBL}) and result[1] == -({INDENT} + last_line_length({LBL}) + 2))",
+        f"implies(para_owner is not None, para_owner.rehydrate_index == old(para_owner.rehydrate_index) + newline_count({LBL}))",
+    ],
+    raises=[],
+    modifies=["para_owner.rehydrate_index"],
+))
